@@ -1,6 +1,6 @@
 """C05 — MPS cost equals the exact bit-cost of the selected precision assignment (DESIGN.md §C10/C02/C05).
 
-Theorems: coq/Props/C05.v over coq/Model/MpsCost.v.
+Theorems: coq/Props/C05.v over coq/Model/MpsCost.v (layer) and coq/Model/MpsCostNet.v (network: feature propagation over the IR, mps_net_cost).
 Cases: grammar networks of vlib/mps_gen.py x search mode (per-layer / per-channel / per-channel with the
 0-bit option) x precision tuples x coefficients with arg-max margin x temperature x flags, in eval mode or in
 training mode with hard (non-Gumbel) sampling, after one forward pass.
@@ -9,9 +9,9 @@ effective input/output features) x selected bits taken from summary(); mpic_late
 spec's own function at the selected precisions (per-layer search); a probing CostSpec records the keys each
 layer type is shown: convolutions must see effective counts under in_channels/out_channels, linear layers
 under in_features/out_features.
-Correspondence: Model/MpsCost.v `run_layer`/`run_layer_pc`/`run_table` fed with the implementation's sampled
-coefficient vectors / matrices, summed over layers, vs get_cost (params_bit, ops_bit, both probes; LUT specs
-through the cost table computed by the spec's own functions).
+Correspondence: Model/MpsCostNet.v `run_net` (IR + per-layer geometry + the implementation's sampled coefficient
+vectors / matrices -> TOTAL params_bit, ops_bit, probe_in, probe_out, evaluated by vm_compute) vs get_cost; LUT specs
+through `run_table` on the cost tables computed by the specs' own functions.
 """
 import os, glob, json, math
 from concurrent.futures import ProcessPoolExecutor
@@ -392,52 +392,29 @@ TYPES = {'conv': 'LConv', 'dw': 'LDw', 'lin': 'LLin'}
 
 
 def model_exprs(c, o, fixed):
-    """Coq expressions: per layer and per cost id (0 params_bit, 1 ops_bit, 2 probe_in, 3 probe_out) + tables"""
+    """Coq expressions of one case: `run_net` (Model/MpsCostNet.v: feature propagation over the IR + sum of the
+    layer costs; totals of params_bit, ops_bit, probe_in, probe_out) fed with the IR, the static geometry and the
+    implementation's sampled coefficient vectors / matrices of every layer; LUT specs: one `run_table` per layer."""
     nodes = c['nodes']
     ex, tags = [], []
-    # effective features from the implementation's sampled coefficients (one-hot in these modes), propagated the
-    # way the code does (add_features_calculator / associate_input_features): a layer reads the calculator of the
-    # node that "sets its input features" = the features-defining producer or a flatten; a depthwise layer is
-    # features-propagating (skipped by that walk) but has its own calculator, which a flatten behind it reads
-    fc, sb, own = {}, {}, {}     # features calculator value of a node; node whose calculator its consumers read
+    lays = []
     for i, nd in enumerate(nodes):
-        k = nd['k']
-        if k == 'in':
-            fc[i], sb[i] = Fraction(nd['c']), i
-        elif k in ('bn', 'relu', 'pool'):
-            fc[i], sb[i] = fc[nd['src']], sb[nd['src']]
-        elif k == 'flatten':
-            fc[i], sb[i] = fc[nd['src']] * nd['mult'], i
-        elif k == 'add':
-            fc[i], sb[i] = fc[sb[nd['src'][0]]], sb[nd['src'][0]]
-        else:
-            ent = o['layers'][str(i)]
-            C = Fraction(ent['geom'][1])
-            if isinstance(ent['tw'][0], list) and ent['zero'] is not None:
-                own[i] = C - sum(Fraction(v) for v in ent['tw'][ent['zero']])
-            else:
-                own[i] = C
-            fc[i] = own[i]
-            sb[i] = sb[nd['src']] if ent['type'] == 'dw' else i
-            eff = {nd['src']: fc[sb[nd['src']]]}
-            ein = eff[nd['src']]
-            geom = [Fraction(v) for v in ent['geom']]
-            pin = [Fraction(v) for v in ent['pin']]
-            tin = [Fraction(v) for v in ent['tin']]
-            pw = [Fraction(v) for v in ent['pw']]
-            for cid in range(4):
-                if isinstance(ent['tw'][0], list):
-                    th = [[Fraction(v) for v in row] for row in ent['tw']]
-                    z = some(Nat(ent['zero'])) if ent['zero'] is not None else None
-                    ex.append('run_layer_pc %s %s %s %s %s %s %s %s %s %s' % (coq(fixed), coq(Nat(cid)), TYPES[ent['type']], coq(geom), coq(ein), coq(pin), coq(tin), coq(pw), coq(th), coq(z)))
-                else:
-                    tw = [Fraction(v) for v in ent['tw']]
-                    ex.append('run_layer %s %s %s %s %s %s %s %s %s %s' % (coq(fixed), coq(Nat(cid)), TYPES[ent['type']], coq(geom), coq(ein), coq(own[i]), coq(pin), coq(tin), coq(pw), coq(tw)))
-                tags.append(('pb', 'ob', 'probe_in', 'probe_out')[cid])
-            for sk in ('mpic', 'ne16'):
-                if 'tab_' + sk in ent:
-                    ex.append('run_table %s %s %s' % (coq([[Fraction(v) for v in row] for row in ent['tab_' + sk]]), coq(tin), coq([Fraction(v) for v in ent['tw']])))
-                    tags.append(sk)
+        ent = o['layers'].get(str(i))
+        if ent is None:
+            lays.append('no_lay')
+            continue
+        q = lambda l: coq([Fraction(v) for v in l])
+        pc = isinstance(ent['tw'][0], list)
+        th = [[Fraction(v) for v in row] for row in ent['tw']] if pc else []
+        tw = [] if pc else [Fraction(v) for v in ent['tw']]
+        z = some(Nat(ent['zero'])) if (pc and ent['zero'] is not None) else None
+        lays.append('(mkLay %s %s %s %s %s %s %s %s)' % (q(ent['geom'][2:6]), q(ent['pin']), q(ent['tin']), q(ent['pw']), coq(pc), coq(tw), coq(th), coq(z)))
+        for sk in ('mpic', 'ne16'):
+            if 'tab_' + sk in ent:
+                ex.append('run_table %s %s %s' % (coq([[Fraction(v) for v in row] for row in ent['tab_' + sk]]), q(ent['tin']), q(ent['tw'])))
+                tags.append(sk)
+    ex.append('run_net false %s [%s]' % (coq(G.coq_ir(nodes)), '; '.join(lays)))
+    tags.append('net')
     return ex, tags
 
 
@@ -491,16 +468,20 @@ def run(ctx):
     model_ok = built
     if built:
         try:
-            good = [(c, o) for c, o in zip(cases, obs) if not o['exc'] and not c.get('dwin')]
+            good = [(c, o) for c, o in zip(cases, obs) if not o['exc']]
             allex, owner = [], []
             for k, (c, o) in enumerate(good):
                 ex, tags = model_exprs(c, o, fixed)
                 allex += ex
                 owner += [(k, t) for t in tags]
-            vals = ctx.coq_eval_sharded('cases', ['Plinio.Model.MpsCost'], 'Open Scope Q_scope.\n', allex, shard=400)
+            vals = ctx.coq_eval_sharded('cases', ['Plinio.Model.MpsNet', 'Plinio.Model.MpsCost', 'Plinio.Model.MpsCostNet'], 'Open Scope Q_scope.\n', allex, shard=150)
             sums = {}
-            for (k, t), (a, b) in zip(owner, vals):
-                sums[(k, t)] = sums.get((k, t), Fraction(0)) + Fraction(a, b)
+            for (k, t), v in zip(owner, vals):
+                if t == 'net':
+                    for t2, (a, b) in zip(('pb', 'ob', 'probe_in', 'probe_out'), v):
+                        sums[(k, t2)] = Fraction(a, b)
+                else:
+                    sums[(k, t)] = sums.get((k, t), Fraction(0)) + Fraction(v[0], v[1])
             for (k, t), mv in sorted(sums.items()):
                 c, o = good[k]
                 iv = o['costs'].get(t)
@@ -511,7 +492,7 @@ def run(ctx):
             model_ok = False
             ctx.notes.append('model evaluation failed: ' + str(e)[-800:])
     ctx.extra['model_impl_mismatches'] = len(mism)
-    ctx.assumptions += ['effective input features of a layer are propagated by the harness along the IR (producer effective outputs x flatten multiplier) and handed to the per-layer Coq model',
+    ctx.assumptions += ['network-level model: effective feature propagation and the sum over layers are evaluated inside Coq (Model/MpsCostNet.v run_net) on the IR + the sampled coefficients of every layer; the harness only transcribes them',
                         'mpic_latency / ne16_latency enter the model as cost tables computed by the specs\' own functions (the theorem C05_mps_cost_onehot holds for every cost function)',
                         'float32 cost accumulation compared within 2^-20 relative (2^-16 for the LUT models)',
                         'per-channel search with 0-bit: residual add with the network input in the same sharing group is not generated']
